@@ -142,6 +142,45 @@ def run(rep: common.Report, tier: str, seed: int, replay=None) -> int:
             if oi < 3:
                 rep.sample(case)
 
+        # ---------- solutions that live in memory only (temporary output / deleted file), and copies ----------
+        def same_dynamics(a, b):
+            for nm in ("dt", "time", "mu", "theta", "screening_iterations"):
+                x, y = getattr(a, nm, None), getattr(b, nm, None)
+                if (x is None) != (y is None) or (x is not None and not np.array_equal(np.asarray(x), np.asarray(y))):
+                    return nm
+            return None
+
+        for mi, (mode, scr, adaptive) in enumerate((("temporary", False, True), ("temporary", True, False), ("deleted", False, True),
+                                                    ("copy", False, True), ("copy-of-loaded", True, True))):
+            opts = runs.make_options(None, solve_time=0.04 if not scr else 0.012, dt_init=2e-3, dt_max=4e-3, save_every=3,
+                                     adaptive=adaptive, include_screening=scr, screening_tolerance=5e-2,
+                                     output_file=None if mode == "temporary" else os.path.join(td, f"m{mi}.h5"))
+            case = {"solution": mode, "screening": scr, "adaptive": adaptive}
+            try:
+                sol = tdgl.solve(dev, opts, applied_vector_potential=0.3, terminal_currents={"source": 1.0, "drain": -1.0})
+                if mode == "deleted":
+                    sol.delete_hdf5()
+                if mode == "copy-of-loaded":
+                    sol = tdgl.Solution.from_hdf5(sol.path)
+                dyn, times = sol.dynamics, np.array(sol.times)
+                newp = os.path.join(td, f"m{mi}_saved.h5")
+                sol.to_hdf5(newp)
+                loaded = tdgl.Solution.from_hdf5(newp)
+            except Exception as e:  # noqa: BLE001
+                rep.violation(f"saving / loading a solution raised {type(e).__name__}: {e}"[:200], case)
+                continue
+            if len(dyn.dt) == 0:
+                rep.not_shown("in-memory solution carries no dynamics; the round trip is vacuous", case)
+            bad = same_dynamics(loaded.dynamics, dyn)
+            if bad:
+                rep.violation(f"per-step record '{bad}' differs after saving a solution to a new file and loading it", case)
+            if not np.array_equal(np.array(loaded.times), times):
+                rep.violation("Solution.times differs after saving a solution to a new file and loading it", case)
+            if not (loaded.tdgl_data == sol.tdgl_data) or not loaded.equals(sol):
+                rep.violation("a solution saved to a new file and loaded does not compare equal to the original", case)
+            rep.count(1)
+            rep.nontrivial(("memory-solution", mode, scr))
+
         # ---------- devices ----------
         for di in range(8 if tier == "quick" else 40):
             d = meshes.make_device(rng, holes=di % 3, terminals=[0, 2, 3, 4][di % 4], max_edge_length=1.5,
